@@ -1417,11 +1417,29 @@ func ReplaceWildcards(used map[Variable]bool, term Term) Term {
 		left := ReplaceWildcards(used, t.Left).(BaseTerm)
 		right := ReplaceWildcards(used, t.Right).(BaseTerm)
 		replaced = Ineq{left, right}
+	case TemporalLiteral:
+		replaced = TemporalLiteral{ReplaceWildcards(used, t.Literal), t.Operator, replaceIntervalWildcards(used, t.Interval)}
+	case TemporalAtom:
+		replaced = TemporalAtom{ReplaceWildcards(used, t.Atom).(Atom), replaceIntervalWildcards(used, t.Interval)}
 	}
 	if numUsed == len(used) { // If no wildcard found
 		return term
 	}
 	return replaced
+}
+
+// replaceIntervalWildcards replaces wildcards among the bounds of a temporal annotation.
+func replaceIntervalWildcards(used map[Variable]bool, interval *Interval) *Interval {
+	if interval == nil {
+		return nil
+	}
+	res := *interval
+	for _, b := range []*TemporalBound{&res.Start, &res.End} {
+		if b.Type == VariableBound && b.Variable.Symbol == "_" {
+			b.Variable = FreshVariable(used)
+		}
+	}
+	return &res
 }
 
 // AddVars adds all variables from term to map, where term is either
